@@ -82,6 +82,11 @@ Inductive case :=
    user-visible callbacks recorded *)
 | VApi (t : trk) (ops : list (op vop)) (views : list view) (obs : list (list (N * N))) (rets : list N) (final : N)
 | SApi (s0 : N) (ops : list (op sopx)) (views : list sview) (obs : list (list (N * N))) (rets : list (N * N)) (final : N)
+(* sequential scripts over several wired sets (Api.wired_program): the target is a DerivedSet (InheritFrom / un-inherit,
+   source writes AND direct writes) or the result of SubtractReactive; [obs] = what the target's subscribers recorded,
+   [rets] = return values of the script's own write calls on the target, [srcfinal] = final contents of the sources *)
+| DApi (k : wkind) (s0s : list N) (ops : list (wop sopx)) (views : list sview) (obs : list (list (N * N)))
+       (rets : list (N * N)) (final : N) (srcfinal : list N)
 | VFree (G : list (N * N)) (final : N) (subs : list sub)
 | SFree (s0 : N) (G : list (N * N)) (final : N) (subs : list sub).
 
@@ -138,6 +143,17 @@ Definition sub_ok (shape : N -> list (N * N) -> bool -> bool -> list (N * N) -> 
   let '(trig, complete, l) := x in
   shape s0 G trig complete l && (if complete then N.eqb (fold l) final else true).
 
+(* the return values of the calls flagged as the script's own (every Write yields exactly one entry of [rets]) *)
+Fixpoint own_rets {W R} (prog : list (op W * bool)) (rets : list R) : list R :=
+  match prog with
+  | [] => []
+  | (Write _, own) :: p => match rets with
+                           | r :: rs => if own then r :: own_rets p rs else own_rets p rs
+                           | [] => []
+                           end
+  | _ :: p => own_rets p rets
+  end.
+
 Definition agree (c : case) : bool :=
   match c with
   | VSeq t ops ncb logs rets final =>
@@ -160,6 +176,13 @@ Definition agree (c : case) : bool :=
                        (map (map_op sopf) ops) (init N (N * N) sop (N * N) s0) in
       idle _ _ _ _ s && leqb (leqb pair_eqb) (obs_of _ _ _ _ sobserve [] s views) obs
       && leqb pair_eqb (Model.rets s) rets && N.eqb (val s) final
+  | DApi k s0s ops views obs rets final srcfinal =>
+      let '(wst, prog) := wired_program k s0s (map (map_wop scallN) ops) in
+      let s := run_seq N (N * N) sop (N * N) s_nonzero s_initD s_wr s_wskip
+                       (map (fun x => map_op scall_op (fst x)) prog) (init N (N * N) sop (N * N) 0%N) in
+      idle _ _ _ _ s && leqb (leqb pair_eqb) (obs_of _ _ _ _ sobserve [] s views) obs
+      && leqb pair_eqb (own_rets prog (Model.rets s)) rets && N.eqb (val s) final
+      && leqb N.eqb (map (ws_src wst) (seq 0 (length srcfinal))) srcfinal
   | VFree G final subs =>
       v_chain 0%N G && N.eqb (fold_left (v_apply N) G 0%N) final
       && forallb (sub_ok v_shape (fold_log N (N * N) (v_apply N) 0%N) 0%N G final) subs
@@ -212,4 +235,29 @@ Proof. vm_compute. reflexivity. Qed.
 Example api_decode_on_live_set :
   agree (SApi 3%N [Subscribe 0 false; Write (ODecode 6%N); Write (ODecode 6%N)] [SwPlain]
               [[(3,0);(4,0)]]%N [(4,0);(0,0)]%N 7%N) = true.
+Proof. vm_compute. reflexivity. Qed.
+
+(* A DerivedSet that is also written directly: Add(0) directly, the source adds 0 (nothing changes: the subscriber is told
+   an EMPTY mutation), Delete(0) directly, the source deletes 0 (again nothing changes), the source adds 1. *)
+Example api_derived_direct_and_inherited :
+  agree (DApi WDerived [0%N] [WInherit 0 [0]; WDir (Subscribe 0 false); WDir (Write (OApply (1, 0)%N)); WSrc 0 (OApply (1, 0)%N);
+                             WDir (Write (OApply (0, 1)%N)); WSrc 0 (OApply (0, 1)%N); WSrc 0 (OApply (2, 0)%N)]
+              [SwPlain] [[(1,0);(0,0);(0,1);(0,0);(2,0)]]%N [(1,0);(0,1)]%N 2%N [2%N]) = true.
+Proof. vm_compute. reflexivity. Qed.
+(* reporting the REQUESTED net mutations instead (1,0);(1,0);(0,1);(0,1) is not what the model does *)
+Example api_derived_requested_is_not_applied :
+  agree (DApi WDerived [0%N] [WInherit 0 [0]; WDir (Subscribe 0 false); WDir (Write (OApply (1, 0)%N)); WSrc 0 (OApply (1, 0)%N);
+                             WDir (Write (OApply (0, 1)%N)); WSrc 0 (OApply (0, 1)%N); WSrc 0 (OApply (2, 0)%N)]
+              [SwPlain] [[(1,0);(1,0);(0,1);(0,1);(2,0)]]%N [(1,0);(0,1)]%N 2%N [2%N]) = false.
+Proof. vm_compute. reflexivity. Qed.
+(* two sources providing the same element, un-inherit of one, then of the other; {0,1} minus {1} reactively *)
+Example api_derived_two_sources :
+  agree (DApi WDerived [3%N; 2%N] [WDir (Subscribe 0 true); WInherit 0 [0; 1]; WSrc 1 (OApply (4, 2)%N); WInherit 1 [1];
+                                   WUninherit 0; WDir (Write (OReplace 1%N)); WUninherit 1]
+              [SwPlain] [[(0,0);(3,0);(0,0);(4,0);(0,0);(0,3);(0,0);(1,4);(0,0)]]%N [(0,4)]%N 1%N [3%N; 4%N]) = true.
+Proof. vm_compute. reflexivity. Qed.
+Example api_subtract_reactive :
+  agree (DApi (WSubtract 1) [3%N; 2%N] [WDir (Subscribe 0 false); WSrc 1 (OApply (1, 2)%N); WDir (Write (OApply (0, 2)%N));
+                                        WSrc 0 (OApply (4, 0)%N); WSrc 1 (OApply (0, 1)%N)]
+              [SwPlain] [[(1,0);(2,1);(0,2);(4,0);(1,0)]]%N [(0,2)]%N 5%N [7%N; 0%N]) = true.
 Proof. vm_compute. reflexivity. Qed.
